@@ -102,6 +102,6 @@ def main(argv, chk):
         sh("git -C /repo worktree remove --force %s" % repo)
         shutil.rmtree(scratch, ignore_errors=True)
         sh("git -C /repo worktree prune")
-    json.dump(results, open(os.path.join(verif, "selftest_result.json"), "w"), indent=1)
+    json.dump(results, open(os.environ.get("FBRV_SELFTEST_OUT", os.path.join(verif, "selftest_result.json")), "w"), indent=1)
     print(json.dumps(results, indent=1))
     return rc_all
